@@ -4,6 +4,7 @@ import (
 	"fmt"
 
 	"github.com/hashicorp/consul/acl"
+	"github.com/hashicorp/consul/agent/consul"
 	"github.com/hashicorp/consul/agent/structs"
 	"github.com/hashicorp/consul/agent/structs/aclfilter"
 	"github.com/hashicorp/consul/internal/verifmc/ev"
@@ -208,6 +209,71 @@ func runACLObjects(c *ev.Ctx) (evals int, cells map[string]bool) {
 			cells[fmt.Sprintf("intention-match/%s/kept=%d", au.name, want)] = true
 			if len(m.Entries) != want {
 				report("IntentionQueryMatch", au.name, "intention-match-entries", fmt.Sprintf("%d entries kept, expected %d (all readable=%v)", len(m.Entries), want, allOK), labels)
+			}
+		}
+	}
+	// ---- KV listings and transaction results (agent/consul FilterDirEnt / FilterKeys / FilterTxnResults): in-place
+	// compaction of a slice; every arrangement of readable and unreadable entries incl. runs of denied ones
+	kvAuth := []struct {
+		name string
+		a    acl.Authorizer
+	}{
+		{"key_prefix pub + node n-ok + service pub", mk(`key_prefix "pub" { policy = "read" } node "n-ok" { policy = "read" } service_prefix "pub" { policy = "read" }`)},
+		{"deny-all", acl.DenyAll()}, {"manage-all", acl.ManageAll()},
+	}
+	type item struct {
+		label string
+		res   func(i int) *structs.TxnResult
+		key   string
+		ok    func(a acl.Authorizer) bool
+	}
+	items := []item{
+		{"kv pub/a", func(i int) *structs.TxnResult { return &structs.TxnResult{KV: &structs.DirEntry{Key: "pub/a", Flags: uint64(i)}} }, "pub/a", func(a acl.Authorizer) bool { return a.KeyRead("pub/a", nil) == acl.Allow }},
+		{"kv sec/b", func(i int) *structs.TxnResult { return &structs.TxnResult{KV: &structs.DirEntry{Key: "sec/b", Flags: uint64(i)}} }, "sec/b", func(a acl.Authorizer) bool { return a.KeyRead("sec/b", nil) == acl.Allow }},
+		{"kv sec/c", func(i int) *structs.TxnResult { return &structs.TxnResult{KV: &structs.DirEntry{Key: "sec/c", Flags: uint64(i)}} }, "sec/c", func(a acl.Authorizer) bool { return a.KeyRead("sec/c", nil) == acl.Allow }},
+		{"node n-no", func(i int) *structs.TxnResult { return &structs.TxnResult{Node: &structs.Node{Node: "n-no", Meta: map[string]string{"pos": fmt.Sprint(i)}}} }, "", func(a acl.Authorizer) bool { return a.NodeRead("n-no", nil) == acl.Allow }},
+		{"service sec on n-ok", func(i int) *structs.TxnResult { return &structs.TxnResult{Service: &structs.NodeService{ID: "sec-1", Service: "sec", Port: i}} }, "", func(a acl.Authorizer) bool { return a.ServiceRead("sec", nil) == acl.Allow }},
+		{"check of pub", func(i int) *structs.TxnResult { return &structs.TxnResult{Check: &structs.HealthCheck{Node: "n-no", CheckID: "c", ServiceName: "pub", Notes: fmt.Sprint(i)}} }, "", func(a acl.Authorizer) bool { return a.ServiceRead("pub", nil) == acl.Allow }},
+	}
+	kk := k + 1
+	for _, au := range kvAuth {
+		for _, seq := range sequences(len(items), kk) {
+			var results structs.TxnResults
+			var ents structs.DirEntries
+			var wantR, wantE, labels []string
+			for i, x := range seq {
+				it := items[x]
+				labels = append(labels, it.label)
+				results = append(results, it.res(i))
+				if it.ok(au.a) {
+					wantR = append(wantR, fmt.Sprintf("%d:%s", i, it.label))
+				}
+				if it.key != "" {
+					ents = append(ents, &structs.DirEntry{Key: it.key, Flags: uint64(i)})
+					if it.ok(au.a) {
+						wantE = append(wantE, fmt.Sprintf("%d:%s", i, it.key))
+					}
+				}
+			}
+			evals += 2
+			pos := map[*structs.TxnResult]int{}
+			for i, r := range results {
+				pos[r] = i
+			}
+			var gotR []string
+			for _, r := range consul.FilterTxnResults(au.a, results) {
+				gotR = append(gotR, fmt.Sprintf("%d:%s", pos[r], items[seq[pos[r]]].label))
+			}
+			cells[fmt.Sprintf("txn-results/%s/kept=%d", au.name, len(wantR))] = true
+			if fmt.Sprint(gotR) != fmt.Sprint(wantR) {
+				report("TxnResults", au.name, "kv-txn-filter-differs", fmt.Sprintf("kept %v, the read rules say %v", gotR, wantR), labels)
+			}
+			var gotE []string
+			for _, e := range consul.FilterDirEnt(au.a, ents) {
+				gotE = append(gotE, fmt.Sprintf("%d:%s", e.Flags, e.Key))
+			}
+			if fmt.Sprint(gotE) != fmt.Sprint(wantE) {
+				report("DirEntries", au.name, "kv-txn-filter-differs", fmt.Sprintf("kept %v, the read rules say %v", gotE, wantE), labels)
 			}
 		}
 	}
